@@ -1,6 +1,6 @@
 (* C12 — lemmas and proofs. *)
 From Coq Require Import List Ascii ZArith NArith Bool Lia.
-From DuneV Require Import C12_Model C12_Spec.
+From DuneV Require Import Params_gen C12_Model C12_Spec.
 Import ListNotations.
 
 (* ------------------------------------------------------------------ termination of the line loop *)
@@ -71,3 +71,15 @@ Lemma c12_hash_in_quoted_repaired :
   let t := c12_ir_tree (c12_parse_ini true c12_hash_doc c12_empty true) in
   c12_lookup t [["x"%char]] = Some ["a"; "#"; "b"]%char /\ c12_lookup t [["y"%char]] = Some ["1"%char].
 Proof. vm_compute. split; reflexivity. Qed.
+
+(* the constants re-read from the C++ source (coq/Params_gen.v, regenerated on every run) are the ones the
+   dialect of C12_Spec.v is written with: the comment character, the two quote characters, the bool words; and the blank
+   set contains space and tab and none of the characters with a meaning in the dialect *)
+Lemma c12_source_constants :
+  c12_param_comment = N_of_ascii "#"%char /\
+  c12_param_quotes = [N_of_ascii "'"%char; N_of_ascii """"%char] /\
+  c12_words c12_param_true_words = [["y"; "e"; "s"]; ["t"; "r"; "u"; "e"]]%char /\
+  c12_words c12_param_false_words = [["n"; "o"]; ["f"; "a"; "l"; "s"; "e"]]%char /\
+  c12_is_ws " "%char = true /\ c12_is_ws "009"%char = true /\
+  forallb (fun c => negb (c12_is_ws c)) ["#"; "="; "["; "]"; "."; "'"; """"; "-"; "+"; "0"; "a"]%char = true.
+Proof. vm_compute. repeat split; reflexivity. Qed.
